@@ -4,7 +4,6 @@
    the start-up conditions and the bound in real / integer arithmetic. *)
 From Coq Require Import ZArith List Bool Lia Reals Lra Psatz.
 From ST Require Import Base.Ints Base.F64 Base.Sorting Model.NtpTime Model.Units Model.Ftm Model.Sync.
-From ST Require Proofs.FtmProofs.
 From Flocq Require Import Core.Core IEEE754.BinarySingleNaN.
 Import ListNotations.
 Open Scope Z_scope.
@@ -661,22 +660,17 @@ Proof. revert n. induction l as [|y r IH]; intros [|n] H; cbn in *; try contradi
 Lemma In_skipn_in {A} (l : list A) n x : In x (skipn n l) -> In x l.
 Proof. revert n. induction l as [|y r IH]; intros [|n] H; cbn in *; try contradiction; try assumption. right; eauto. Qed.
 
-Lemma ftm_small cfg X o : X <> [] -> Forall (psmall cfg) X -> ftm X = Some o -> psmall cfg o.
+(* the fault-tolerant midpoint of a slice is the Midpoint of two of its elements *)
+Lemma ftm_sorted_small cfg s : s <> [] -> Forall (psmall cfg) s -> psmall cfg (ftm_sorted s).
 Proof.
-  intros Hne HF E. rewrite Forall_forall in HF.
-  set (l := map (fun v => (v, true)) X).
-  assert (Ml : map fst l = X) by (unfold l; rewrite map_map; cbn; apply map_id).
-  destruct (FtmProofs.ftm_contained l) as [res [lo [hi [R [L [H B]]]]]].
-  - unfold l. destruct X; [congruence|discriminate].
-  - assert (N : nbad l = 0%nat).
-    { unfold l, nbad. clear. induction X as [|x r IH]; [reflexivity|]. cbn. exact IH. }
-    rewrite N. lia.
-  - intros x Hx. unfold l in Hx. apply in_map_iff in Hx. destruct Hx as [v [<- Hv]]. cbn.
-    apply (psmall_abs cfg v), HF. exact Hv.
-  - rewrite Ml in R. assert (res = o) by congruence. subst res.
-    assert (Lo : psmall cfg lo). { unfold l in L. apply in_map_iff in L. destruct L as [v [Ev Hv]]. inversion Ev. subst v. apply HF, Hv. }
-    assert (Hi : psmall cfg hi). { unfold l in H. apply in_map_iff in H. destruct H as [v [Ev Hv]]. inversion Ev. subst v. apply HF, Hv. }
-    apply psmall_abs in Lo. apply psmall_abs in Hi. apply psmall_abs. lia.
+  intros Hne HF. rewrite Forall_forall in HF. unfold ftm_sorted.
+  assert (Hn : (1 <= length s)%nat) by (destruct s; [congruence|cbn; lia]).
+  set (n := length s) in *. set (f := ((n - 1) / 3)%nat).
+  assert (Hf : (f <= n - 1)%nat) by (unfold f; apply Nat.div_le_upper_bound; lia).
+  assert (A : psmall cfg (nth f s 0)) by (apply HF, nth_In; fold n; lia).
+  assert (B : psmall cfg (nth (n - 1 - f) s 0)) by (apply HF, nth_In; fold n; lia).
+  apply psmall_abs in A. apply psmall_abs in B. apply psmall_abs.
+  destruct (midpoint_small (nth f s 0) (nth (n - 1 - f) s 0)) as [_ M]; lia.
 Qed.
 
 Lemma measure_small cfg old arr s' o : psmall cfg 0 -> Forall (psmall cfg) old -> Forall (psmall cfg) arr ->
@@ -691,13 +685,13 @@ Proof.
     { rewrite Forall_forall in *. intros v Hv. unfold X in Hv. apply in_app_or in Hv. destruct Hv as [Hv|Hv].
       - apply Ha. eapply In_firstn_in. exact Hv.
       - apply Ho. eapply In_skipn_in. exact Hv. }
-    assert (PX : Permutation.Permutation X (zsort X)) by apply FtmProofs.only_reorders.
-    split.
-    + rewrite Forall_forall in *. intros v Hv. apply FX. apply (Permutation.Permutation_in _ (Permutation.Permutation_sym PX)). exact Hv.
-    + assert (LX : length X = length old).
-      { pose proof (collect_length old arr) as CL. unfold collect in CL. fold X in CL. rewrite zsort_length in CL. exact CL. }
-      apply (ftm_small cfg X); [intros EX; rewrite EX in LX; discriminate LX|exact FX|].
-      unfold ftm. destruct X; [discriminate LX|reflexivity].
+    assert (PX : Permutation.Permutation X (zsort X)) by apply isort_perm.
+    assert (FS : Forall (psmall cfg) (zsort X)).
+    { rewrite Forall_forall in *. intros v Hv. apply FX. apply (Permutation.Permutation_in _ (Permutation.Permutation_sym PX)). exact Hv. }
+    split; [exact FS|].
+    assert (LX : length (zsort X) = length old).
+    { pose proof (collect_length old arr) as CL. unfold collect in CL. fold X in CL. exact CL. }
+    apply ftm_sorted_small; [intros EX; rewrite EX in LX; discriminate LX|exact FS].
 Qed.
 
 Lemma timely_small cfg l : forallb (peer_small cfg) (timely l) = true -> Forall (psmall cfg) (timely l).
